@@ -6,13 +6,19 @@ From Coq Require Import List Bool Arith.
 Import ListNotations.
 From BioVerif Require Import Model.Ifa Spec.IfaSpec Proofs.IfaProofs.
 
-(* For every set of configured interfaces (any mix of active and passive) and EVERY finite sequence
-   of device updates (up / not up, addressed to any interface, also to unknown ones): no step
+(* Lock discipline the theorems rely on (a parameter of the model, [head_discipline] = what HEAD does):
+   neither the hello sender nor the receiver takes nifa.mu - the lock DeviceUpdate holds from entry to
+   return, i.e. also while _stop waits for those two routines. Events: device updates [Dev i up] and
+   [DevDuring i up w]: the update with the hello ticker firing (TickDuring) or a frame arriving
+   (FrameDuring) WHILE DeviceUpdate holds the lock.
+
+   For every set of configured interfaces (any mix of active and passive) and EVERY finite sequence
+   of such events (up / not up, addressed to any interface, also to unknown ones): no step
    panics (close of a closed channel, Close/GetMTU/SendPacket on a nil handle, nil device status)
    and none blocks (WaitGroup.Wait on a routine that cannot leave); each event is followed by one
    hello interval of the periodic routines (LSP generation, PSNP sender, hello senders). *)
 Theorem C33_no_panic : forall (kinds : list bool) (evs : list event),
-  exists s, run (init kinds) evs = Ok s.
+  exists s, run head_discipline (init kinds) evs = Ok s.
 Proof. exact no_panic. Qed.
 Print Assumptions C33_no_panic.
 
@@ -20,7 +26,7 @@ Print Assumptions C33_no_panic.
    down and came back any number of times - the interface sends a hello in the next hello interval
    and frames of a neighbor reach the adjacency code. *)
 Theorem C33_hellos_after_up : forall (kinds : list bool) (evs : list event) s i f,
-  run (init kinds) evs = Ok s ->
+  run head_discipline (init kinds) evs = Ok s ->
   nth_error s i = Some f ->
   passive f = false ->
   last_up evs i false = true ->
@@ -30,7 +36,7 @@ Print Assumptions C33_hellos_after_up.
 
 (* Conversely a passive interface, or one whose link is not up, neither sends nor listens. *)
 Theorem C33_quiet_otherwise : forall (kinds : list bool) (evs : list event) s i f,
-  run (init kinds) evs = Ok s ->
+  run head_discipline (init kinds) evs = Ok s ->
   nth_error s i = Some f ->
   passive f = true \/ last_up evs i false = false ->
   sends_hellos f = false /\ can_form_adjacency f = false.
@@ -38,17 +44,48 @@ Proof. exact quiet_otherwise_all. Qed.
 Print Assumptions C33_quiet_otherwise.
 
 (* The hello counts a step outputs (what the harness observes on the wire) are exactly what
-   sends_hellos says about the state after the step. *)
+   sends_hellos says: the hello a tick during the update produces is sent iff the interface was
+   sending before the update; the counts of the following interval are those of the new state. *)
 Theorem C33_hello_output : forall (kinds : list bool) (evs : list event) s e,
-  run (init kinds) evs = Ok s ->
-  exists s', step s e = Ok (s', map (fun f => if sends_hellos f then 1 else 0) s').
-Proof. exact step_output. Qed.
+  run head_discipline (init kinds) evs = Ok s ->
+  exists s', step head_discipline s e =
+    Ok (s', (match e with
+             | Dev _ _ => 0%nat
+             | DevDuring i _ TickDuring =>
+               match nth_error s i with Some f => if sends_hellos f then 1%nat else 0%nat | None => 0%nat end
+             | DevDuring _ _ FrameDuring => 0%nat
+             end,
+             map (fun f => if sends_hellos f then 1 else 0) s')).
+Proof.
+  intros kinds evs s e H. destruct (step_output kinds evs s e H) as (s' & Hs). exists s'. rewrite Hs.
+  destruct e as [i up | i up [|]]; try reflexivity.
+  unfold ev_during. destruct (nth_error s i); reflexivity.
+Qed.
 Print Assumptions C33_hello_output.
+
+(* The discipline is necessary: flip the parameter (the hello sender takes nifa.mu between tick and
+   send - the "data-race fix" of seeded change C33-2r2) and, in ANY state between events in which
+   an active interface's link is up, a link-down update during which the hello ticker fires blocks
+   for good: _stop waits for the sender, the sender waits for the lock DeviceUpdate holds.
+   Same for a receiver that takes the lock. *)
+Theorem C33_sender_lock_under_update_blocks :
+  (forall f rl, inv f -> passive f = false -> link_up f = true ->
+     device_update_during (mkDisc true rl) f false TickDuring = Blocked WaitHelloSender) /\
+  (forall f sl, inv f -> passive f = false -> link_up f = true ->
+     device_update_during (mkDisc sl true) f false FrameDuring = Blocked WaitReceiver) /\
+  run (mkDisc true false) (init [false]) [Dev 0 true; DevDuring 0 false TickDuring] = Blocked WaitHelloSender /\
+  (exists s, run head_discipline (init [false]) [Dev 0 true; DevDuring 0 false TickDuring; Dev 0 true] = Ok s).
+Proof.
+  split; [exact sender_lock_blocks |]. split; [exact receiver_lock_blocks |].
+  split; [vm_compute; reflexivity |]. eexists. vm_compute. reflexivity.
+Qed.
+Print Assumptions C33_sender_lock_under_update_blocks.
 
 (* Non-vacuity: an active and a passive interface, the active link flaps twice and is up again. *)
 Example C33_example_flaps :
-  let evs := [Dev 0 true; Dev 1 true; Dev 0 false; Dev 1 false; Dev 0 true; Dev 0 false; Dev 0 true] in
-  match run (init [false; true]) evs with
+  let evs := [Dev 0 true; Dev 1 true; DevDuring 0 false TickDuring; Dev 1 false; Dev 0 true;
+              DevDuring 0 false FrameDuring; DevDuring 0 true TickDuring] in
+  match run head_discipline (init [false; true]) evs with
   | Ok [a; p] => sends_hellos a = true /\ handles a = 3 /\ eth p = NoHandle /\ last_up evs 0 false = true
   | _ => False
   end.
